@@ -357,6 +357,8 @@ class _ExtentSealed:
     """The inherited `extent` (sealed composites): the longest representation."""
     returns = Int
     self_classes = ["StructureType", "UnionType"]
+    # a service type has no layout: its bit_length_set raises TypeError, hence so does its (inherited) extent
+    raises = {"TypeError": lambda s: ISINST(s.self, "ServiceType")}
 
     def post(s):
         return {"extent": s.result == EXTENT(s.self),
